@@ -337,6 +337,11 @@ def run(index, rep, tier):
         fam = [f for f in index.functions_in_module("dendropy.datamodel.charmatrixmodel") if f.cls is not None and f.name in ("remove_sequences", "discard_sequences", "keep_sequences")]
         rep.floor("R19.11", "row-selection arguments", 3, one_pass_iterable_rule(index, rep, "R19.11", fam, ("taxa",)))
 
+    # ---- R19.12 an export is a matrix over the same alphabet
+    with rep.section("R19.12"):
+        rep.rule("R19.12", "an exported or cloned matrix keeps the state alphabets of its source: the subclass constructors do not overwrite what the copy-construction route took over (C12 R12.8)")
+        rep.floor("R19.12", "borrowed obligations", 2, borrow(index, rep, "C12", {"R12.8"}, "R19.12"))
+
 
 def _r19_3(rep, fi, seeds):
     t = tainted_names(fi, seeds)
